@@ -611,6 +611,9 @@ def rnd_continuous(rng, n_each, n_bayes, big=False):
 # =============================================================================== driver
 def run(ctx: Ctx):
     use_repo()
+    # deductive part: Evaluator, anneal, tabu_search, lns, alns (+ closures) under contract (specs/search.py)
+    from vf.prove import prove
+    prove(ctx, ["specs.search"], "C19")
     rng = random.Random(ctx.seed)
     q = ctx.quick
     spaces = []  # (name, description, cases)
